@@ -9,17 +9,23 @@ Definition op_nref (o:op) : nref :=
   | OpCreateTable t => NTable (t_name t)
   | OpDropTable n => NTable n
   | OpAddColumn t c => NColumn t (c_name c)
-  | OpDropColumn t c | OpAlterColumn t c _ _ _ _ => NColumn t c
+  | OpDropColumn t c | OpAlterColumn t c _ _ _ _ _ _ => NColumn t c
   | OpAddCons t k => kref t k
   | OpDropCons t ix n => if ix then NIx t n else NUq t n
+  | OpAddFk t f => NFk t (f_name f)
+  | OpDropFk t n => NFk t n
   end.
 Definition drops_or_alters (o:op) : bool :=
-  match o with OpDropTable _ | OpDropColumn _ _ | OpAlterColumn _ _ _ _ _ _ | OpDropCons _ _ _ => true | _ => false end.
+  match o with OpDropTable _ | OpDropColumn _ _ | OpAlterColumn _ _ _ _ _ _ _ _ | OpDropCons _ _ _ | OpDropFk _ _ => true | _ => false end.
 
 Definition lk_col (S:schema) (t n:N) : option col :=
   match kfind t_name t S with Some tb => kfind c_name n (t_cols tb) | None => None end.
 Definition lk_cons (S:schema) (t n:N) : option cons :=
   match kfind t_name t S with Some tb => kfind k_name n (t_cons tb) | None => None end.
+
+Definition lk_fk (S:schema) (t n:N) : option fk :=
+  match kfind t_name t S with Some tb => kfind f_name n (t_fks tb) | None => None end.
+Definition lk_fks (S:schema) (t:N) : list fk := match kfind t_name t S with Some tb => t_fks tb | None => [] end.
 
 Section Acc.
   Variable io : obj -> bool -> option obj -> bool.
@@ -37,6 +43,14 @@ Section Acc.
   (* "neither filter rejects the object": the names involved are accepted by include_name and the include_object
      calls that the unfiltered comparison would make for this operation (its table, then the object) say yes *)
   Definition name_ok (o:op) : bool := iname NSchema && iname (NTable (op_table o)) && iname (op_nref o).
+  (* a foreign key is matched by signature, not by name: the key an OpAddFk adds is "the same object" as a reflected key
+     with the same signature, whatever that one is called; if include_name rejects that reflected name the object is
+     rejected (it is then treated as absent and the metadata key is reported as added) *)
+  Definition fk_twin_ok (conn:schema) (o:op) : bool :=
+    match o with
+    | OpAddFk tn mf => forallb (fun cf => implb (fk_sig_eqb mf cf) (iname (NFk tn (f_name cf)))) (lk_fks conn tn)
+    | _ => true
+    end.
   Definition table_guard (conn meta:schema) (tn:N) : bool :=
     match kfind t_name tn meta, kfind t_name tn conn with
     | Some m, Some c => io (OTable m) false (Some (OTable c))
@@ -49,7 +63,7 @@ Section Acc.
     | OpCreateTable _ | OpDropTable _ => true
     | OpAddColumn tn mc => io (OColumn tn mc) false None
     | OpDropColumn tn n => match lk_col conn tn n with Some cc => io (OColumn tn cc) true None | None => true end
-    | OpAlterColumn tn n _ _ _ _ =>
+    | OpAlterColumn tn n _ _ _ _ _ _ =>
         match lk_col meta tn n, lk_col conn tn n with
         | Some mc, Some cc => io (OColumn tn mc) false (Some (OColumn tn cc))
         | _, _ => true end
@@ -64,8 +78,14 @@ Section Acc.
                                   else io (OCons tn ck) true None
                      | None => io (OCons tn ck) true None end
         | None => true end
+    | OpAddFk tn mf => io (OFk tn mf) false (option_map (OFk tn) (lk_fk conn tn (f_name mf)))
+    | OpDropFk tn n =>
+        match lk_fk conn tn n with
+        | Some cf => io (OFk tn cf) true (option_map (OFk tn) (lk_fk meta tn n))
+        | None => true end
     end.
-  Definition acc (conn meta:schema) (o:op) : bool := name_ok o && table_guard conn meta (op_table o) && obj_guard conn meta o.
+  Definition acc (conn meta:schema) (o:op) : bool :=
+    name_ok o && fk_twin_ok conn o && table_guard conn meta (op_table o) && obj_guard conn meta o.
 End Acc.
 
 (* ---------------------------------------------------------------- finite decision tables *)
@@ -73,7 +93,7 @@ Definition nref_eqb (a b:nref) : bool :=
   match a, b with
   | NSchema, NSchema => true
   | NTable t, NTable t' => N.eqb t t'
-  | NColumn t c, NColumn t' c' | NUq t c, NUq t' c' | NIx t c, NIx t' c' => N.eqb t t' && N.eqb c c'
+  | NColumn t c, NColumn t' c' | NUq t c, NUq t' c' | NIx t c, NIx t' c' | NFk t c, NFk t' c' => N.eqb t t' && N.eqb c c'
   | _, _ => false
   end.
 Definition okey : Type := nref * bool * bool.       (* object, reflected, compare_to is not None *)
@@ -81,10 +101,10 @@ Definition okey_eqb (a b:okey) : bool :=
   nref_eqb (fst (fst a)) (fst (fst b)) && Bool.eqb (snd (fst a)) (snd (fst b)) && Bool.eqb (snd a) (snd b).
 Fixpoint assoc {K} (e:K->K->bool) (k:K) (l:list (K*bool)) (d:bool) : bool :=
   match l with [] => d | (k',v) :: r => if e k k' then v else assoc e k r d end.
-Record filt := mkFilt { f_obj : list (okey*bool); f_obj_d : bool; f_name : list (nref*bool); f_name_d : bool }.
+Record filt := mkFilt { fl_obj : list (okey*bool); fl_obj_d : bool; fl_name : list (nref*bool); fl_name_d : bool }.
 Definition io_of (f:filt) : obj -> bool -> option obj -> bool :=
-  fun ob refl cmp => assoc okey_eqb (obj_ref ob, refl, has_cmp cmp) (f_obj f) (f_obj_d f).
-Definition iname_of (f:filt) : nref -> bool := fun r => assoc nref_eqb r (f_name f) (f_name_d f).
+  fun ob refl cmp => assoc okey_eqb (obj_ref ob, refl, has_cmp cmp) (fl_obj f) (fl_obj_d f).
+Definition iname_of (f:filt) : nref -> bool := fun r => assoc nref_eqb r (fl_name f) (fl_name_d f).
 
 (* ---------------------------------------------------------------- one case *)
 Definition c20_in : Type := schema * schema * filt.
@@ -108,7 +128,7 @@ Definition C20_holds (i:c20_in) (out:c20_out) : Prop :=
 
 (* decider: for table-defined predicates "some call about r said yes" is a finite search *)
 Definition obj_acceptedb (f:filt) (r:nref) : bool :=
-  existsb (fun rc => assoc okey_eqb (r, fst rc, snd rc) (f_obj f) (f_obj_d f)) [(true,true);(true,false);(false,true);(false,false)].
+  existsb (fun rc => assoc okey_eqb (r, fst rc, snd rc) (fl_obj f) (fl_obj_d f)) [(true,true);(true,false);(false,true);(false,false)].
 Definition check_C20 (i:c20_in) (out:c20_out) : bool :=
   let '(A, B, f) := i in
   forallb (fun o => obj_acceptedb f (op_nref o) && obj_acceptedb f (NTable (op_table o))) (o_filtered out)
